@@ -17,7 +17,7 @@ RULE = ("Every shipped instance is visited (Hill 0..999, Shekel 0..999, Grishagi
         "certificate up to L*h/2; GKLS: generated points in every ball and outside; StronginC3: feasible set only; "
         "(c) bounded descent from the declared point must end within 0.5% of the side per coordinate at a value not "
         "above the best found by more than the (b) tolerance. Before an instance is built its predecessor in the family and the instance itself are "
-        "built and evaluated once in the same process (a sweep over the family), and a younger sibling is built right "
+        "built and evaluated once in the same process (a sweep over the family), their own optimum records being shifted in place afterwards, and a younger sibling is built right "
         "after it and stays alive during the checks, so a declaration or a function that depends on construction "
         "history or on other live instances is seen. Non-trivial: an instance with a second local minimum "
         "within 10% of the value range of the global one. Distinct by construction (one case per instance).")
